@@ -1,6 +1,7 @@
 """C07 Comparisons and logical operators compare physical quantities."""
 from fractions import Fraction
 
+from .. import lean, ucat
 from ..gencore import G, replay_core, run_programs
 from .c02 import shapes_pair, size
 
@@ -149,6 +150,88 @@ def classify(prog, actual, expected, diff):
     return ("Array comparison/logic", "/".join(n for n in names if n))
 
 
+def check_nonfinite(ctx, out):
+    """Comparisons on operands holding nan / +-inf. The rational model cannot hold those values, so the model supplies the
+    *plan* (`binaryPlan`, tied to `ArrV.binaryOp` by theorem C07_plan_agrees): which numpy kernel is applied after which
+    conversion factor; numpy itself evaluates that plan on the non-finite values and the result is compared with the
+    implementation's. Spec = the same plan from the committed reference (it does not depend on the extracted tables)."""
+    import numpy as np
+
+    osy = ctx.osyris
+    r = ctx.rng
+    fams = ucat.REAL_FAMILIES
+    n = 150 if ctx.tier == "quick" else 4000
+    special = [float("nan"), float("inf"), float("-inf"), 0.0, -0.0]
+    jobs, metas = [], []
+    for _ in range(n):
+        fam = r.choice(sorted(fams))
+        ua = r.choice(fams[fam])
+        ub = r.choice(fams[fam]) if r.random() < 0.85 else r.choice(fams[r.choice(sorted(fams))])
+        op = r.choice(CMP)
+        m = r.choice([1, 3, 6])
+        sa, sb = r.choice([([m], [m]), ([m], []), ([], [m]), ([], [])])
+
+        def vals(shape):
+            k = 1
+            for d in shape:
+                k *= d
+            return np.array([r.choice(special) if r.random() < 0.5 else r.uniform(-50, 50) for _ in range(k)], dtype=float).reshape(shape)
+
+        av, bv = vals(sa), vals(sb)
+        pyk = r.choice(["var", "var", "qty", "num", "nd"])
+        if pyk in ("num", "nd"):
+            ub = ""
+            if r.random() < 0.7:
+                ua = r.choice(fams["dimensionless"])
+            if pyk == "num":
+                bv = bv.reshape(-1)[:1].reshape(())
+        jobs.append({"engine": "binplan", "name": op, "lu": ucat.unit_json(osy, ua), "ru": ucat.unit_json(osy, ub)})
+        metas.append((op, ua, ub, av, bv, pyk))
+    plans = lean.run_driver(jobs)
+    pyop = {"lt": "__lt__", "le": "__le__", "gt": "__gt__", "ge": "__ge__", "eq": "__eq__", "ne": "__ne__"}
+    for (op, ua, ub, av, bv, pyk), plan in zip(metas, plans):
+        out.evaluations += 1
+        a = osy.Array(values=av.copy(), unit=ua)
+        if pyk == "var":
+            b = osy.Array(values=bv.copy(), unit=ub)
+        elif pyk == "qty":
+            b = bv.copy() * osy.units(ub)
+        elif pyk == "num":
+            b = float(bv)
+        else:
+            b = bv.copy()
+        try:
+            with np.errstate(all="ignore"):
+                res = getattr(a, pyop[op])(b)
+            got = ("ok", np.asarray(res.values), str(res.unit))
+        except Exception as e:  # noqa: BLE001
+            got = ("err", type(e).__name__)
+        if "err" in plan:
+            want = ("err", plan["err"])
+        else:
+            with np.errstate(all="ignore"):
+                want = ("ok", getattr(np, plan["np"])(av, bv * float(Fraction(plan["ratio"]))) if plan["converted"] else getattr(np, plan["np"])(av, bv))
+        out.compared += 1
+        if any(np.isnan(x).any() for x in (av, bv)):
+            out.nontrivial.add("nonfinite:" + str(out.evaluations))
+        bad = None
+        if want[0] == "err":
+            if got[0] != "err":
+                bad = f"operands of incompatible dimensions ({ua!r} vs {ub!r}) compared without raising"
+        elif got[0] == "err":
+            bad = f"raised {got[1]} although the units {ua!r} and {ub!r} are compatible"
+        elif got[1].shape != want[1].shape or not np.array_equal(got[1], want[1]):
+            bad = f"{op} on non-finite values: observed {got[1].tolist()}, numpy {plan['np']} on the converted quantities gives {want[1].tolist()}"
+        elif got[2] not in ("dimensionless", ""):
+            bad = f"the boolean result carries the unit {got[2]}"
+        if bad:
+            out.violations.append({"what": bad, "case": {"op": op, "lhs": [repr(x) for x in av.reshape(-1).tolist()], "lhs_unit": ua,
+                                                         "rhs": [repr(x) for x in bv.reshape(-1).tolist()], "rhs_unit": ub, "rhs_kind": pyk,
+                                                         "shapes": [list(av.shape), list(bv.shape)]},
+                                   "call_site": "Array comparison/logic", "input_class": "nonfinite:" + op})
+    out.extra["nonfinite_cases"] = n
+
+
 def run(ctx):
     n = 900 if ctx.tier == "quick" else 20000
     ge = G(ctx.rng, ctx.osyris, "exact")
@@ -163,6 +246,7 @@ def run(ctx):
         else:
             cases.append(gen_chain(ge))
     out = run_programs(ctx, cases, nontrivial, known_classifier=classify)
+    check_nonfinite(ctx, out)
     dist = {}
     for c in cases:
         k = ":".join(c["tags"][:2]) + ":" + c["lane"]
@@ -171,7 +255,8 @@ def run(ctx):
     out.rule = ("comparison of two operands whose values are related after unit conversion (exact ties, +-1 ulp-scale offsets, unrelated "
                 "values) x six operators x operand kinds x dtypes x shapes x compatible/incompatible unit pairs; logical &,|,^,~ on boolean "
                 "Arrays; chains of comparisons combined with logical operators as selections are built. non-trivial = operands in different "
-                "units, or a logical/chain case; distinct by program hash")
+                "units, or a logical/chain case; distinct by program hash. Plus a lane with nan / +-inf / signed zero operands evaluated by numpy "
+                "on the model's plan (kernel name, conversion factor)")
     return out
 
 
